@@ -9,7 +9,7 @@ from ..core import CRASH
 
 ID = "C19"
 LEVEL = "exploration"
-RULE = ("every string of <=3 (thorough 4) atoms over a 23-atom typographic alphabet (quotes, escaped quotes, entity "
+RULE = ("every string of <=3 (thorough 4) atoms over a 25-atom typographic alphabet (quotes, escaped quotes, entity "
         "quotes, code spans, links with titles, raw HTML, autolinks with quotes, (c) -- ... +- !!!! line breaks) x "
         "{replacements, smartquotes, both} x 4 quote option shapes (4-char string, lists with multi-character, empty "
         "and NBSP strings) x {commonmark, js-default, commonmark html off}: the stream with the typographer on has the "
@@ -20,7 +20,7 @@ RULE = ("every string of <=3 (thorough 4) atoms over a 23-atom typographic alpha
         "containing a quote or a replaceable sequence; distinct = distinct (rule set, quotes, on-stream text).")
 
 ATOMS = ["a", " ", '"', "'", "*", "`", "[", "](u 't')", '\\"', "&quot;", "<b>", "<http://a'b>", "(c)", "--", "...", "\n",
-         "1", ".", "!!!!", "+-", "\\'", "<a href=\"x'y\">", "(tm) "]
+         "1", ".", "!!!!", "+-", "\\'", "<a href=\"x'y\">", "(tm) ", "[l](u)", "<http://x/(c)--y...z(tm)>"]
 QUOTES = ["“”‘’", ["<<", ">>", "<", ""], "abcd", ["« ", " »", "‹ ", " ›"]]
 BASES = [("commonmark", {}), ("js-default", {}), ("commonmark", {"html": False})]
 MODES = [("both", ["replacements", "smartquotes"]), ("sq", ["smartquotes"]), ("repl", ["replacements"])]
